@@ -14,5 +14,9 @@ for inst, (mod, cfg) in G.LTS_INSTANCES.items():
     r = run_mc(mod, cfg)
     assert r['ok'], r
     ensure_lts(mod, cfg + '_emit')
+try:
+    run_proofs()          # informational (unbounded Level-A theorems); cached for the checks
+except Exception as ex:
+    print('proofs skipped:', ex)
 print('setup ok')
 PY
